@@ -271,7 +271,12 @@ class SymbolTable():
 
         # Make a copy of each symbol in the symbol table
         for symbol in self.symbols:
-            new_st.add(symbol.copy())
+            new_symbol = symbol.copy()
+            # The copy() of most symbol classes hands on the interface object
+            # of the original, so changing e.g. the access of an argument in
+            # one table would also change it in the other.
+            new_symbol.interface = symbol.interface.copy()
+            new_st.add(new_symbol)
 
         # Prepare the new argument list
         new_arguments = []
